@@ -1,4 +1,132 @@
+"""Triage ladder (DESIGN.md 3.5): failed obligation -> counterexample -> native replay on the real code."""
+import hashlib
+import importlib.util
+import json
+import os
+import subprocess
+import time
+
+from . import driver, trace
+from .extract import REPO
+
+VERIF = driver.VERIF
+
+
+def unit_hook(unit):
+    p = os.path.join(VERIF, "units", unit, "replay.py")
+    if not os.path.exists(p):
+        return None
+    spec = importlib.util.spec_from_file_location("replay_" + unit, p)
+    m = importlib.util.module_from_spec(spec)
+    spec.loader.exec_module(m)
+    return m
+
+
+def counterexample(job, bdir):
+    """re-run the failed job with --trace under the small-model switch (NITRO_SMALL keeps the
+    counterexample replayable natively); returns (recorded inputs, user-level trace lines, failing names)"""
+    j = driver.Job(job.unit, job.name.replace("@", "_") + "_trace", job.entry, job.enforce, job.replace, job.files,
+                   list(job.defines) + ["NITRO_SMALL=1"], rec=job.rec, props=job.props, kind=job.kind, unwind=job.unwind)
+    driver.run_job(j, os.path.join(bdir, j.name), backends=("cadical",), timeout=300, trace=True, incdirs=job.incdirs)
+    if j.status != "done":
+        return None, [], [], "trace run undecided: " + j.reason
+    inputs, lines, names = None, [], []
+    for r in j.results:
+        if r["status"] == "FAILURE" and not r["desc"].startswith("CANARY"):
+            names.append(r["name"])
+            if "trace" in r and inputs is None:
+                inputs = trace.recorded_inputs(r["trace"], [])
+                raw = {}
+                for st in r["trace"]:
+                    if st.get("stepType") == "assignment" and str(st.get("lhs", "")).startswith("g_in["):
+                        try:
+                            idx = int(st["lhs"][5:st["lhs"].index("]")].rstrip("lLuU"))
+                            raw[idx] = st.get("value", {}).get("data")
+                        except Exception:
+                            pass
+                inputs["g_in"] = [raw.get(i) for i in range(16)]
+                lines = ["%s:%s %s = %s" % s for s in trace.user_steps(r["trace"])
+                         if not s[2].startswith(("g_in", "i_", "__", "return_value_nondet"))][-60:]
+    if not names:
+        return None, [], [], "no obligation fails under NITRO_SMALL (the failure needs large sizes)"
+    return inputs, lines, names, ""
+
+
 def triage(prop, job, labels, bdir, tags):
-    return "/verif/replays/none.json", False
-def replay_file(p):
-    return 0
+    t0 = time.time()
+    os.makedirs(os.path.join(VERIF, "replays"), exist_ok=True)
+    rec = {"property": prop, "unit": job.unit, "job": job.name, "failed_obligations": labels,
+           "verifier": {"backend": job.backend, "commands": [c.replace(VERIF, "/verif") for c in job.cmds],
+                        "failed": [{"name": r["name"], "description": r["desc"], "location": "%s:%s" % (os.path.basename(r["file"]), r["line"])}
+                                   for r in getattr(job, "failed", [])][:40]},
+           "reproduced_on_real_code": False}
+    reproduced = False
+    hook = unit_hook(job.unit)
+    try:
+        inputs, lines, names, note = counterexample(job, bdir)
+    except Exception as e:  # never let the triage hide the violation
+        inputs, lines, names, note = None, [], [], "trace extraction failed: %r" % (e,)
+    rec["counterexample"] = {"inputs": inputs, "trace_tail": lines, "failing_under_small_model": names, "note": note}
+    if hook is not None:
+        try:
+            if inputs:
+                ok, detail = hook.native_replay(job.name.split("@")[0], inputs, bdir)
+                rec["native_replay_of_counterexample"] = detail
+                reproduced = ok
+            if not reproduced:
+                ok, detail = hook.native_sweep(job.name.split("@")[0], bdir)
+                rec["native_sweep"] = detail
+                reproduced = ok
+        except Exception as e:
+            rec["native_error"] = repr(e)
+    else:
+        rec["native_replay_of_counterexample"] = "no native replay harness for unit " + job.unit
+    rec["reproduced_on_real_code"] = reproduced
+    if not reproduced:
+        rec["verdict"] = ("no-failing-input-found: the obligation(s) above were discharged on the unchanged tree and fail now; "
+                          "the verifier output is attached")
+    rec["seconds"] = round(time.time() - t0, 1)
+    h = hashlib.sha256(json.dumps([prop, job.name, labels]).encode()).hexdigest()[:10]
+    path = os.path.join(VERIF, "replays", "%s_%s_%s.json" % (prop, job.name.replace("@", "_"), h))
+    json.dump(rec, open(path, "w"), indent=1)
+    return path, reproduced
+
+
+def replay_file(path):
+    rec = json.load(open(path))
+    print("replay of %s: property=%s job=%s" % (path, rec.get("property"), rec.get("job")))
+    print("failed obligations: " + ", ".join(rec.get("failed_obligations", []))[:800])
+    hook = unit_hook(rec.get("unit", ""))
+    bdir = os.path.join(VERIF, "build", "replay_%d" % os.getpid())
+    os.makedirs(bdir, exist_ok=True)
+    try:
+        if hook is None:
+            print("no native replay harness for this unit; verifier output is in the file")
+            return 0
+        ce = rec.get("counterexample", {}).get("inputs")
+        ok = False
+        if ce:
+            ok, detail = hook.native_replay(rec["job"].split("@")[0], ce, bdir)
+            print(json.dumps(detail)[:1500])
+        if not ok:
+            ok, detail = hook.native_sweep(rec["job"].split("@")[0], bdir)
+            print(json.dumps(detail)[:1500])
+        print("REPRODUCED on the real code" if ok else "not reproduced on the current tree")
+        return 1 if ok else 0
+    finally:
+        import shutil
+        shutil.rmtree(bdir, ignore_errors=True)
+
+
+def build_native(src_cpp, out, extra=()):
+    cmd = ["g++", "-std=c++17", "-O1", "-I", os.path.join(REPO, "include"), src_cpp, "-o", out] + list(extra)
+    p = subprocess.run(cmd, stdout=subprocess.PIPE, stderr=subprocess.STDOUT, text=True, timeout=600)
+    return p.returncode, p.stdout[-3000:]
+
+
+def run_native(cmd, timeout=120):
+    try:
+        p = subprocess.run(cmd, stdout=subprocess.PIPE, stderr=subprocess.STDOUT, text=True, timeout=timeout)
+        return p.returncode, p.stdout[-3000:]
+    except subprocess.TimeoutExpired:
+        return -9, "TIMEOUT after %ds" % timeout
